@@ -38,12 +38,14 @@ echo "== demo WITH the change" | tee -a $LOG; rundemo | tee -a $LOG | grep -E "^
 git -C $WT clean -fdq   # remove demo files, keep the change
 cp $PATCH $DEST/patch.diff; rm -rf $DEST/demo; cp -r $DEMO $DEST/demo; cp $META $DEST/meta.agent.json 2>/dev/null
 [ -n "$DEMO_ONLY" ] && CHECKS=""
+# a check of another tree works in a private directory (lib/vcommon.py: ALT): nothing of /verif/coq, evidence/ or replays/ is touched
+ALT=$(cd /verif && VERIF_REPO=$WT python3 -c "import sys; sys.path.insert(0,'lib'); import vcommon; print(vcommon.ALT)" 2>/dev/null | tail -1)
 for c in $CHECKS; do
   echo "== VERIF_REPO=$WT ./check $c" | tee -a $LOG
   ( cd /verif && VERIF_REPO=$WT timeout 3000 ./check $c 2>&1 | grep -v "^WARNING" | tail -6 ) | tee -a $LOG
-  for r in /verif/replays/$c-*.json; do [ -f "$r" ] && python3 -c "
+  for r in $ALT/replays/$c-*.json; do [ -f "$r" ] && python3 -c "
 import json,sys; d=json.load(open('$r')); print('   replay', '$r', '|', d.get('kind'), '|', d.get('klass'), '|', (d.get('what') or '')[:100])" | tee -a $LOG; done
-  rm -f /verif/replays/$c-*.json
+  rm -f $ALT/replays/$c-*.json
 done
 git -C /repo worktree remove --force $WT
-echo "(re-run the checks on /repo afterwards to refresh gen/ and evidence)"
+case "$ALT" in /verif/build/alt/*) rm -rf "$ALT";; esac
